@@ -83,4 +83,18 @@ PROPS = {
         real=REAL_CODEC, simulated=SIM_COMMON + ["extension-list model", "packet pool and frame-list model"],
         assumptions=ASSUME_COMMON + ["the list<->bytes bijection is exercised at exploration strength only (it is a pure function; the simulated part is capacity faults, corruption and repacketizer carriage)"],
     ),
+    "C12": dict(
+        level="exploration",
+        variants=dict(quick=[("ship", 3), ("asan", 1)], thorough=[("ship", 3), ("asan", 2), ("asan-fuzzing", 2)]),
+        must_build=["ship"],
+        runs=dict(quick=5000, thorough=120000), secs=dict(quick=50, thorough=600),
+        rule="one evaluation = one history (ctl / encode / decode / loss steps on a subject encoder or decoder of seeded kind) executed TWICE under two environments that differ in heap fill pattern, "
+             "block addresses, stack residue and bystander objects, with state faults at seeded points: SNAP (memcpy of exactly get_size bytes to another address), MIGRATE (continue on the copy, original scribbled and freed), "
+             "RESET (OPUS_RESET_STATE vs a freshly initialised object with the same settings); oracle = every twin (never-moved replica, clones, migrated, fresh) returns identical codes, packets/PCM bits, final ranges and getters at every step, "
+             "and the two passes produce identical logs; non-trivial = at least one state fault fired and >=5 encode/decode steps succeeded; distinct = signature over subject kind and the per-step result log",
+        fault_keys=["snap", "migrate", "reset_fresh", "dec_loss_steps"],
+        probes_required=["subject_encoder", "subject_decoder", "snap", "migrate", "reset_fresh", "ctl_applied"],
+        real=REAL_CODEC, simulated=SIM_COMMON + ["object memory (simulator-owned exact-size blocks, poison patterns, addresses)", "stack residue (pre-scribbled)", "bystander objects"],
+        assumptions=ASSUME_COMMON + ["uninitialised reads that never influence an output are not detected (no MSan); copying during a call from another thread is a contract violation and not simulated"],
+    ),
 }
